@@ -6,12 +6,16 @@ package c03lib
 
 import (
 	"context"
+	"crypto/sha256"
+	"encoding/hex"
 	"fmt"
+	"math"
 	"sync"
 
 	"github.com/vektah/gqlparser/v2/gqlerror"
 
 	"github.com/99designs/gqlgen/graphql"
+	"github.com/99designs/gqlgen/graphql/handler/extension"
 )
 
 // Ev is one recorded event. All events carry the same keys (TLC's Json module
@@ -56,20 +60,48 @@ func (t *Tracer) Events() []any {
 	return out
 }
 
-// Rej is the rejection command of a request: which mutator (kind pm|cm,
-// registration index) answers with an error; K "none" for no rejection.
-type Rej struct {
+// Gate is one command of a request's gate plan: the mutator gate (kind pm|cm,
+// registration index I) does not let this request pass: O "rej" - it returns
+// an error; O "pan" - it panics (an unchecked type assertion on an extension
+// value, an index into a missing header ...). Gates not named pass.
+type Gate struct {
 	K string `json:"k"`
 	I int    `json:"i"`
+	O string `json:"o"`
+}
+
+// GatePanic is the value a gate panics with on command (so that the planned
+// panics can be told from panics of gqlgen or of the harness).
+type GatePanic struct{ What string }
+
+func (g GatePanic) Error() string { return "c03 gate panic: " + g.What }
+
+// IsGatePanic reports whether a recovered value is a planned gate panic.
+func IsGatePanic(v any) bool {
+	switch v.(type) {
+	case GatePanic, *GatePanic:
+		return true
+	}
+	return false
 }
 
 // ReqInfo travels in the request context; hooks, cache and resolvers read the
-// request id and the rejection command from it.
+// request id and the gate plan from it.
 type ReqInfo struct {
-	ID  int
-	Rej Rej
-	T   *Tracer
-	QID func(query string) string // query text -> query id of the session
+	ID    int
+	Gates []Gate
+	T     *Tracer
+	QID   func(query string) string // query text -> query id of the session
+}
+
+// Outcome is what gate (k, idx) does with this request: acc | rej | pan.
+func (ri *ReqInfo) Outcome(k string, idx int) string {
+	for _, g := range ri.Gates {
+		if g.K == k && g.I == idx {
+			return g.O
+		}
+	}
+	return "acc"
 }
 
 type ctxKey struct{}
@@ -124,6 +156,78 @@ func NewExt(idx int, hs HookSet) graphql.HandlerExtension {
 	return newExtMask(&core{idx: idx}, hs.Mask())
 }
 
+// NewGate returns the extension registered at position idx. impl "" is the
+// instrumented extension of NewExt. The other two are gqlgen's OWN gate
+// extensions with the user-supplied part driven by the gate plan:
+//
+//	"complexity" (hs must be CM only): extension.ComplexityLimit whose limit
+//	   function logs the call and returns a generous limit (pass), a limit of
+//	   -1 (the extension rejects: complexity exceeded) or panics;
+//	"apq" (hs must be PM only): extension.AutomaticPersistedQuery over a cache
+//	   that logs the call; the client sends the persistedQuery extension with
+//	   the right hash - with the query (Add: pass, or the cache panics) or,
+//	   for a rejection, without it (Get: miss, PersistedQueryNotFound).
+func NewGate(idx int, hs HookSet, impl string) graphql.HandlerExtension {
+	switch {
+	case impl == "complexity" && hs == HookSet{CM: true}:
+		return &extension.ComplexityLimit{Func: func(ctx context.Context, oc *graphql.OperationContext) int {
+			ri := info(ctx)
+			ri.T.Log(ri.ID, "cm", "call", idx, "")
+			switch ri.Outcome("cm", idx) {
+			case "rej":
+				return -1
+			case "pan":
+				panic(GatePanic{fmt.Sprintf("complexity limit function of extension %d", idx)})
+			}
+			return math.MaxInt32
+		}}
+	case impl == "apq" && hs == HookSet{PM: true}:
+		return extension.AutomaticPersistedQuery{Cache: apqGateCache{idx}}
+	case impl != "":
+		panic(fmt.Sprintf("c03lib: gate implementation %q does not fit hook set %+v", impl, hs))
+	}
+	return NewExt(idx, hs)
+}
+
+// apqGateCache is the persisted-query store of the APQ gate: empty, so a
+// hash sent without its query is PersistedQueryNotFound.
+type apqGateCache struct{ idx int }
+
+func (a apqGateCache) act(ctx context.Context) {
+	ri := info(ctx)
+	ri.T.Log(ri.ID, "pm", "call", a.idx, "")
+	if ri.Outcome("pm", a.idx) == "pan" {
+		panic(GatePanic{fmt.Sprintf("persisted-query cache of extension %d", a.idx)})
+	}
+}
+
+func (a apqGateCache) Get(ctx context.Context, key string) (string, bool) {
+	a.act(ctx)
+	return "", false
+}
+
+func (a apqGateCache) Add(ctx context.Context, key, value string) { a.act(ctx) }
+
+// ApqParams is what a client of a server with an APQ gate at position idx
+// (0: none) sends: the query text (empty for a commanded rejection: hash only)
+// and the extensions object.
+func ApqParams(q *Request, exts []HookSet, impl []string) (query string, extensions map[string]any) {
+	for i := range exts {
+		if i < len(impl) && impl[i] == "apq" {
+			sum := sha256.Sum256([]byte(q.Query))
+			extensions = map[string]any{"persistedQuery": map[string]any{"version": 1, "sha256Hash": hex.EncodeToString(sum[:])}}
+			query = q.Query
+			for _, g := range q.Gates {
+				if g.K == "pm" && g.I == i+1 && g.O == "rej" {
+					query = ""
+				}
+			}
+			return query, extensions
+		}
+	}
+	return q.Query, nil
+}
+
 type core struct{ idx int }
 
 func (c *core) ExtensionName() string                          { return fmt.Sprintf("C03Ext%d", c.idx) }
@@ -134,8 +238,11 @@ type mPM struct{ c *core }
 func (m mPM) MutateOperationParameters(ctx context.Context, p *graphql.RawParams) *gqlerror.Error {
 	ri := info(ctx)
 	ri.T.Log(ri.ID, "pm", "call", m.c.idx, "")
-	if ri.Rej.K == "pm" && ri.Rej.I == m.c.idx {
+	switch ri.Outcome("pm", m.c.idx) {
+	case "rej":
 		return gqlerror.Errorf("rejected by parameter mutator %d", m.c.idx)
+	case "pan":
+		panic(GatePanic{fmt.Sprintf("parameter mutator %d", m.c.idx)})
 	}
 	return nil
 }
@@ -145,8 +252,11 @@ type mCM struct{ c *core }
 func (m mCM) MutateOperationContext(ctx context.Context, oc *graphql.OperationContext) *gqlerror.Error {
 	ri := info(ctx)
 	ri.T.Log(ri.ID, "cm", "call", m.c.idx, "")
-	if ri.Rej.K == "cm" && ri.Rej.I == m.c.idx {
+	switch ri.Outcome("cm", m.c.idx) {
+	case "rej":
 		return gqlerror.Errorf("rejected by context mutator %d", m.c.idx)
+	case "pan":
+		panic(GatePanic{fmt.Sprintf("context mutator %d", m.c.idx)})
 	}
 	return nil
 }
